@@ -178,6 +178,28 @@ def castling_matrix():
     return out
 
 
+def double_push_matrix():
+    """every double pawn push (both colours, all files) with an enemy pawn on each of the squares whose INDEX is next to the
+    landing square: the true neighbours on the same rank, and for the edge files the square at the other edge of the
+    neighbouring rank (index +-1 wraps around). Returns (fen, move) pairs; the rules decide what is recorded."""
+    out = []
+    for side in "wb":
+        start_r, land_r = (1, 3) if side == "w" else (6, 4)
+        own, foe = ("P", "p") if side == "w" else ("p", "P")
+        for f in range(8):
+            land = _sqn(f, land_r)
+            for off in (None, -1, 1):
+                b = {_sqn(4, 0): "K", _sqn(4, 7): "k", _sqn(f, start_r): own}
+                if off is not None:
+                    sq = land + off
+                    if sq in b or not (8 <= sq < 56):
+                        continue
+                    b[sq] = foe
+                mv = "abcdefgh"[f] + str(start_r + 1) + "abcdefgh"[f] + str(land_r + 1)
+                out.append((_fen_from(b, side, "-"), mv))
+    return out
+
+
 def playout_script(tier, seed, skip=()):
     rng = Rng(seed)
     ngames = 96 if tier == "quick" else 1600
@@ -204,6 +226,8 @@ def playout_script(tier, seed, skip=()):
         blocks.append(lines)
     for ci, root in enumerate(castling_matrix()):
         blocks.append(["# c%d" % ci, "new " + root, "obs", "gend", "dump", "imp"])
+    for di, (root, mv) in enumerate(double_push_matrix()):
+        blocks.append(["# e%d" % di, "new " + root, "obs", "gend", "dump", "hist " + mv, "obs", "gend", "dump", "pp", "imp", "show", "pgn"])
     for li, (root, cyc, n) in enumerate(LONG):
         lines = ["# l%d" % li, "new " + root, "obs", "gend", "dump"]
         for k in range(n):
